@@ -30,7 +30,9 @@ import (
 // abstract description of a project
 
 type Param struct {
-	Kind string `json:"kind"` // plain | body | validBody | bodyValid | path | valid
+	// Kind: plain | body | validBody | bodyValid | path | valid, and (added later, see paramPrefix)
+	// bodyRequired | bodyThenFinal | finalThenBody | pathMarker | requestParam | header
+	Kind string `json:"kind"`
 	Type string `json:"type"`
 	Name string `json:"name"`
 }
@@ -45,6 +47,18 @@ type Method struct {
 	Path   string  `json:"path,omitempty"`
 	Ret    string  `json:"ret"`
 	Params []Param `json:"params,omitempty"`
+	// optional variations added later (zero value = the plain variant of the older cases)
+	Before      []string `json:"before,omitempty"`      // further annotations written before the mapping annotation
+	After       []string `json:"after,omitempty"`       // ... and after it
+	Pair        string   `json:"pair,omitempty"`        // one more element-value pair, e.g. produces = "text/plain" (forms with pairs; nopath: the only pair)
+	PairPos     int      `json:"pairPos,omitempty"`     // 0 last, 1 first, 2 in the middle
+	Parens      bool     `json:"parens,omitempty"`      // nopath written @GetMapping()
+	VerbForm    string   `json:"verbForm,omitempty"`    // "" RequestMethod.X | static: X (static import) | array: {RequestMethod.X}
+	Mods        string   `json:"mods,omitempty"`        // "" public | package | protected | public final | public synchronized
+	Throws      bool     `json:"throws,omitempty"`      // throws IOException
+	Body        string   `json:"body,omitempty"`        // "" | calls | lambda | anonymous | locals
+	SameLine    bool     `json:"sameLine,omitempty"`    // annotations and signature on one line
+	FieldBefore string   `json:"fieldBefore,omitempty"` // a field declaration (with its annotations) written before this method
 }
 
 type Class struct {
@@ -59,12 +73,31 @@ type Class struct {
 	Tight      bool     `json:"tight,omitempty"` // value="/p" without blanks
 	Comments   bool     `json:"comments,omitempty"`
 	Methods    []Method `json:"methods"`
+	// optional variations added later
+	Kind       string   `json:"kind,omitempty"`       // "" class | interface (never a controller)
+	Stereotype string   `json:"stereotype,omitempty"` // annotation of a class that is not a controller: @Service, @ControllerAdvice ...
+	CtlArg     string   `json:"ctlArg,omitempty"`     // argument of the controller annotation: ("orderCtl") | (value = "orderCtl")
+	Pre        []string `json:"pre,omitempty"`        // type annotations before the controller annotation / stereotype
+	Mid        []string `json:"mid,omitempty"`        // between controller annotation and class-level mapping
+	Post       []string `json:"post,omitempty"`       // after the class-level mapping
+	BasePair   string   `json:"basePair,omitempty"`   // one more pair in the class-level mapping (baseForm valuePair; pairOnly: the only pair)
+	BasePairFirst bool  `json:"basePairFirst,omitempty"`
+	ClassMods  string   `json:"classMods,omitempty"`  // "" public | package | public final | public abstract
+	Extends    string   `json:"extends,omitempty"`
+	Implements string   `json:"implements,omitempty"`
+	Imports    []string `json:"imports,omitempty"`    // further single-type imports
+	Dto        string   `json:"dto,omitempty"`        // "" | before | after: a second, package-private class in the same file
 }
 
 type Case struct {
 	Classes []Class `json:"classes"`
 	Order   []int   `json:"order"` // file order of the whole project (a permutation)
 	Subs    [][]int `json:"subs"`  // sub-projects: sequences of distinct class indexes
+	// optional, added later
+	Maven    bool     `json:"maven,omitempty"`    // mNN/src/main/java/<package>/<Class>.java instead of a flat directory
+	Prefixes []string `json:"prefixes,omitempty"` // prefixes for FilterApiByPrefix (api) / the first one for `coca api -a` (cli)
+	Flags    []string `json:"flags,omitempty"`    // further options of `coca api` (cli)
+	Seq      []int    `json:"seq,omitempty"`      // sub-check seq: projects scanned one after the other in one process (0 = whole project, k = Subs[k-1])
 }
 
 func (m Method) isHandler() bool {
